@@ -203,9 +203,10 @@ def check(prop, tier, seed):
     ev = {"property_id": prop, "tier": tier, "seed": int(seed), "level": mod.LEVEL, "coverage": cov,
           "assumptions": list(getattr(mod, "ASSUMPTIONS", [])), "wall_s": round(time.time() - t0, 2),
           "violations": int(n_real if real else 0)}
-    os.makedirs(os.path.join(HOME, "evidence"), exist_ok=True)
-    with open(os.path.join(HOME, "evidence", prop + ".json"), "w") as f:
-        json.dump(ev, f, indent=1, default=repr)
+    if not os.environ.get("TWVERIF_NO_EVIDENCE"):       # scratch runs against modified trees leave the evidence alone
+        os.makedirs(os.path.join(HOME, "evidence"), exist_ok=True)
+        with open(os.path.join(HOME, "evidence", prop + ".json"), "w") as f:
+            json.dump(ev, f, indent=1, default=repr)
 
     print("%s %s seed=%s: %d evaluations, %d distinct non-trivial, %d shards, %.1fs -> %s"
           % (prop, tier, seed, m["evaluations"], distinct, m["shards"], time.time() - t0, verdict))
